@@ -5645,7 +5645,7 @@ class CodegenCtx:
             # a string with a default value is allocated in start(), but delete may have freed it again since
             if ProgramData.do(ProgramFlag.ALLOCATE_STR_SPACE_DYNAMIC_ON_DEMAND) and (action.into_storage.default_value is None or ProgramData.do(ProgramFlag.DELETE_STRING_FREE_MEMORY)):
                 # (also in start(): an earlier start action may already have allocated the buffer)
-                result.add(f"if (!state->c.{action.into_storage.name}) state->c.{action.into_storage.name} = malloc({action.into_storage.str_size});")
+                result.add(f"if (!state->c.{action.into_storage.name}) state->c.{action.into_storage.name} = calloc({action.into_storage.str_size}, 1);")
             if len(action.value_expr) > action.into_storage.effective_string_size():
                 raise IllegalDFAStateError("Literal is too long for output", action)
             result.add(self._generate_set_string(action.value_expr, action.into_storage))
@@ -5673,7 +5673,7 @@ class CodegenCtx:
             # Check if we need to allocate
             # a string with a default value is allocated in start(), but delete may have freed it again since
             if ProgramData.do(ProgramFlag.ALLOCATE_STR_SPACE_DYNAMIC_ON_DEMAND) and (action.into_storage.default_value is None or ProgramData.do(ProgramFlag.DELETE_STRING_FREE_MEMORY)) and self._is_dynamic(action.into_storage):
-                result.add(f"if (!state->c.{action.into_storage.name}) state->c.{action.into_storage.name} = malloc({output_length_expr});")
+                result.add(f"if (!state->c.{action.into_storage.name}) state->c.{action.into_storage.name} = calloc({output_length_expr}, 1);")
             # We treat the size given in by the user as including a terminating null (if requested, anyways)
             max_length_expr = self._generate_buflike_length_expr(action.into_storage, include_null=True)
             result.add(f"if (state->{action.into_storage.name}_counter == {max_length_expr}) {{")
@@ -5773,7 +5773,7 @@ class CodegenCtx:
                         assert out_expr.holds_a(OutputStorageType.STR)
                         # Also allocate the data if not included
                         if self._is_dynamic(out_expr):
-                            contents.add(f"state->c.{out_expr.name} = malloc({self._generate_buflike_length_expr(out_expr)});")
+                            contents.add(f"state->c.{out_expr.name} = calloc({self._generate_buflike_length_expr(out_expr)}, 1);")
                         contents.add(self._generate_set_string(out_expr.default_value, out_expr))
                     else:
                         contents.add(f"state->c.{out_expr.name} = {self._generate_code_for_int_expr(out_expr.default_value, IntegerExprUseContext.ASSIGN_INITIAL, out_expr)};")
@@ -5791,7 +5791,7 @@ class CodegenCtx:
                         contents.add(f"state->c.{out_expr.name} = NULL;")
                     else:
                         contents.add(f"// allocate space for {out_expr.name}")
-                        contents.add(f"state->c.{out_expr.name} = malloc({out_expr.str_size});")
+                        contents.add(f"state->c.{out_expr.name} = calloc({out_expr.str_size}, 1);")
                         if out_expr.str_null:
                             contents.add(f"state->c.{out_expr.name}[0] = 0;")
 
